@@ -9,4 +9,4 @@ for id in "$@"; do
   (cd /verif && timeout 3600 bin/symgo check $id --tier $tier 2>&1 | tail -${TAILN:-8}; echo "exit=${PIPESTATUS[0]}")
 done
 cd /repo && git checkout -- . && git status --short | head
-(cd /verif && git checkout -- evidence replays 2>/dev/null; git -C /verif clean -fdq replays evidence 2>/dev/null)
+(cd /verif && git checkout -- evidence 2>/dev/null; git -C /verif checkout -- replays 2>/dev/null)
